@@ -113,6 +113,13 @@ func genC16(rng *rand.Rand, tier string) *sim.Plan {
 			f := pick(rng, c16filters)
 			a, b := l.chA[n], l.chB[n]
 			ph.Ops = append(ph.Ops, sim.Op{K: "unsubscribe", C: b, Filters: []string{f}}, sim.Op{K: "subscribe", C: a, Subs: []mqttc.Sub{{Filter: f, QoS: 1}}})
+			if chance(rng, 0.4) {
+				// the other client's SUBSCRIBE leaves in the very instant the last holder's DISCONNECT does: both reach
+				// the node together, the session-end hook and the subscribe hook interleave as the scheduler likes
+				ph.Ops = append(ph.Ops, sim.Op{K: "disconnect", C: a, Instant: true}, sim.Op{K: "connect", C: a, Node: n, Clean: true})
+				ph.Ops = append(ph.Ops, sim.Op{K: "subscribe", C: b, Subs: []mqttc.Sub{{Filter: f, QoS: 1}}, Trigger: fmt.Sprintf("disconnect>%d", a), Instant: true, D: sim.Sec(3)})
+				return
+			}
 			if chance(rng, 0.6) {
 				ph.Ops = append(ph.Ops, sim.Op{K: "disconnect", C: a}, sim.Op{K: "connect", C: a, Node: n, Clean: true})
 			} else {
